@@ -6,7 +6,10 @@ import tgen
 #          wrapped value as a generator value given the inner value's s-expression)
 POSITIONS = ["field", "root", "tuple-elem", "enum-elem", "slice-elem", "set-elem", "map-value", "ok", "err",
              "nested-field", "tuple-index", "index", "deref", "method", "wildcard-field", "struct-variant-field", "method-value",
-             "method-then-field", "method-then-index", "tuple-index-chain"]
+             "method-then-field", "method-then-index", "tuple-index-chain", "method-value-then-borrow"]
+
+# meanings of the wrapper methods the positions use (appended to every case's meaning table)
+METHOD_MEANINGS = "(m %s %s) (m %s %s) (m %s %s)" % (tgen.hexs("get"), tgen.hexs("field:f"), tgen.hexs("own"), tgen.hexs("field:h"), tgen.hexs("r"), tgen.hexs("field:f"))
 
 
 # The same sweep one reference level up: the value handed to the pattern is a `&T`.  The comparator is a struct field of type
@@ -92,6 +95,12 @@ def wrap(pos, g, t, v, pat):
         # a projection AFTER a call: `h.id().f` is a place inside the value the call returned a reference to
         return ("#[derive(Debug)] struct H { f: %s }\nimpl H { fn id(&self) -> &H { self } }\n#[derive(Debug)] struct W2 { h: H }" % T,
                 "W2", "W2 { h: H { f: %s } }" % E, "W2 { h.id().f: %s }" % pat, adt("W2", ["h"], [adt("H", ["f"], [S])]))
+    if pos == "method-value-then-borrow":
+        # a chain whose LAST call borrows from a temporary an EARLIER call returned by value (`name.to_lowercase().as_str()`): the
+        # temporary has to live as long as the generated assertion uses the borrow
+        return ("#[derive(Debug, Clone)] struct H { f: %s }\nimpl H { fn r(&self) -> &%s { &self.f } }\n#[derive(Debug)] struct W { h: H }\nimpl W { fn own(&self) -> H { self.h.clone() } }\n"
+                "#[derive(Debug)] struct W2 { w: W }" % (T, T),
+                "W2", "W2 { w: W { h: H { f: %s } } }" % E, "W2 { w.own().r(): %s }" % pat, adt("W2", ["w"], [adt("W", ["h"], [adt("H", ["f"], [S])])]))
     if pos == "method-then-index":
         return ("#[derive(Debug)] struct H { xs: Vec<%s> }\nimpl H { fn id(&self) -> &H { self } }\n#[derive(Debug)] struct W2 { h: H }" % T,
                 "W2", "W2 { h: H { xs: vec![%s] } }" % E, "W2 { h.id().xs[0]: %s }" % pat, adt("W2", ["h"], [adt("H", ["xs"], ["(seq %s)" % S])]))
@@ -106,5 +115,5 @@ POSITION_CLASS = {
     "struct-variant-field": "reference-binding", "wildcard-field": "reference-to-place",
     "ref-field": "reference-binding", "root-borrow": "root-written-as-borrow", "root-borrow-paren": "root-written-as-borrow",
     "root-ref-var": "reference-binding", "tuple-elem-ref": "reference-binding",
-    "nested-field": "place", "tuple-index": "place", "index": "place", "deref": "place", "method": "method-result", "method-value": "temporary", "method-then-field": "place", "method-then-index": "place", "tuple-index-chain": "place",
+    "nested-field": "place", "tuple-index": "place", "index": "place", "deref": "place", "method": "method-result", "method-value": "temporary", "method-then-field": "place", "method-then-index": "place", "tuple-index-chain": "place", "method-value-then-borrow": "method-result",
 }
